@@ -98,24 +98,24 @@ PROPS = {
         "spec_ops": {"spec.c07.stream": "fr.stream"},
     },
     "C08": {
-        "thm": "SameVerif.Thm.C08",
+        "thm": ["SameVerif.Thm.C08", "SameVerif.Thm.C08rx"],
         "suites": ["asmseq", "asmscen", "sigc01", "sigseq", "sighold"],
         "spec_filter": r"^spec\.(asm c08|sig c08|sig c08seq|sig c08hold) ",
-        "technique": "Lean 4 invariants over all assembler operation histories (no EndOfMessage is ever left pending; accept never sets a deadline beyond now+hold; a due result is released by the next poll) + differential correspondence of the Assembler incl. private state + per-tick-polled scenario sweeps judged by a delay oracle",
+        "technique": "Lean 4 invariants over all assembler operation histories (no EndOfMessage is ever left pending; accept never sets a deadline beyond now+hold; a due result is released by the next poll) + receiver-level run theorems (Thm/C08rx: the pending result is reported at the FIRST NoCarrier tick at or after acceptance + HOLD whatever Searching/Reading ticks intervene, nothing before) + differential correspondence of the Assembler incl. private state + per-tick-polled scenario sweeps judged by a delay oracle + signal-level suites sigseq/sighold judged by a trace-only hold oracle",
         "level_text": "Proved in Lean over every state and every operation of the assembler model: an EndOfMessage is output by the very call that assembles its establishing burst and is never left pending; every pending result is due no later than its acceptance + MAX_INTERBURST_SYMBOLS (= documented 1.311 s, from the generated constants) and any poll at or after the deadline outputs it and empties the slot, so nothing is held for ever. "
                       "The model is tied to the real Assembler through the hook (outputs and private state after every call) and on thousands of scripted histories with a poll at every idle tick; the oracle checks EOM-at-burst-tick and SOM <= last carrying burst + hold on a quiet channel.",
-        "level_note": "Ticks are symbol-synchronizer outputs; the conversion to seconds/samples and the burst-termination latency are sampled at signal level (C01/C14 suites), not proved. One open known finding (F5) is reported as KNOWN-FINDING.",
+        "level_note": "Ticks are symbol-synchronizer outputs; the conversion to seconds/samples and the burst-termination latency are sampled at signal level (sigc01, sigseq, sighold: carrier activity inside the hold, destroyed-prefix bursts), not proved. One open known finding (F8) is reported as KNOWN-FINDING.",
         "rule": ASM_RULE + " " + SIG_RULE,
         "exhaustive": False,
         "assumptions": ["the receiver polls the assembler on every symbol tick whose link state is NoCarrier (C13/C09 receiver model)", "tick rate ~ 520.83 Hz (front-end assumption FE4, sampled)"],
     },
     "C04": {
-        "thm": "SameVerif.Thm.C04",
+        "thm": ["SameVerif.Thm.C04", "SameVerif.Thm.C04rx"],
         "suites": ["asmseq", "asmscen", "sigc01", "signear", "sigseq", "siglong"],
         "spec_filter": r"^spec\.(asm c04|sig c04|sig nosom) ",
-        "technique": "Lean 4 invariant over all assembler operation histories (every reported message is `combine` of a run of <= 3 consecutive bursts of the log) + theorem that `combine` only reports bytes backed by two agreeing bursts or the bitwise majority of three; correspondence at hook and signal level; evidence oracle on every event trace",
+        "technique": "Lean 4 invariant over all assembler operation histories (every reported message is `combine` of a run of <= 3 consecutive bursts of the log) + theorem that `combine` only reports bytes backed by two agreeing bursts or the bitwise majority of three; + receiver-level provenance theorems (Thm/C04rx: every EndOfMessage EVENT of every run from the initial state is a decoded trailer or the forced one strictly later than 135 s after a still-open StartOfMessage event; the timer is armed by StartOfMessage outputs only); correspondence at hook and signal level; evidence oracle on every event trace",
         "level_text": "Proved in Lean: for ALL burst sets, a decoded header has every byte equal (after MSb masking) in two bursts or the bitwise majority of three, needs two bursts covering every reported position, a single burst or a pair disagreeing on the first byte never decodes, an end-of-message estimate begins NN; and over ALL operation histories with non-decreasing ticks the assembler model only ever reports `combine` of a run of at most three consecutive bursts of its burst log (invariant with init/idle/assemble preservation). The models are tied to the real combiner/Assembler through the hook and, in situ, to the real receiver's tapped streams; the evidence oracle (independent of the models) judges the complete event trace of every scenario and every signal case, including a near-miss library (silence, noise, tones, programme, wrong-baud and preamble-less FSK, preamble only, lone bursts, disagreeing bursts, prefixes with 3+ bit errors).",
-        "level_note": "That non-SAME AUDIO yields fewer than two agreeing bursts is a statement about f32 DSP: sampled (signear), not proved. The forced end-of-message arm is covered by the receiver model (C09).",
+        "level_note": "That non-SAME AUDIO yields fewer than two agreeing bursts is a statement about f32 DSP: sampled (signear), not proved. The forced end-of-message arm is proved at receiver level (Thm/C04rx eom_event_decoded_or_forced, timer_provenance, no_som_output_no_forced) and exercised by siglong's noheader_* kinds (> 135 s after a decode error or a lone trailer burst).",
         "rule": ASM_RULE + " " + SIG_RULE,
         "exhaustive": False,
         "assumptions": ["symbol tick counts passed to the assembler are non-decreasing (they are a u64 counter)", "FE: non-SAME audio does not produce two bursts that agree (sampled)"],
@@ -235,7 +235,7 @@ PROPS = {
         "technique": "Lean 4 theorems on the app model (exactly one child per StartOfMessage; the k-th child's stdin is the half-open sample range from its header's position to the next message's position or end of input; ranges in bounds, ordered, non-overlapping; one spawn attempt per StartOfMessage) + recorder child dumping environment and stdin, compared byte for byte, + Lean oracle restating the environment from the header model",
         "level_text": "Proved in Lean for every message trace: with a child configured and spawns succeeding the children are exactly expectedChildren (one per StartOfMessage, in order, each fed samples [position of its header, position of the next message or end of input)); for ANY oracle the children are a sublist of that specification (a failed spawn removes only that child), every StartOfMessage gets exactly one spawn attempt, ranges are within the input, ordered and non-overlapping; no child and no attempt without configuration. "
                       "Tie: a recorder child dumps SAMEDEC_* and its stdin for every spawn; the harness checks the stdin bytes equal the exact input slice and the Lean oracle re-derives every variable from the header text with the C06/C16/C15 models: MSG, RATE, ORG, ORIGINATOR, EVT, EVENT, SIGNIFICANCE, SIG_NUM, LOCATIONS (space-separated), IS_NATIONAL, and PURGETIME - ISSUETIME = validity duration.",
-        "level_note": "Utc::now() is the receive time used for ISSUETIME: only the difference PURGETIME - ISSUETIME is judged. OS pipe/spawn/wait are assumed.",
+        "level_note": "The environment is also a MODEL (Model/Spawner childEnv: all twelve SAMEDEC_* variables incl. ISSUETIME/PURGETIME as epoch seconds from the Time model), compared byte for byte with what the recorder child saw (op app.env, clock = UTC year/day bracketing the run; skipped and counted if the date changed), and proved to restate the header fields for every accepted header and clock (env_restates_header, env_total). The oracle judges PURGETIME - ISSUETIME independently. OS pipe/spawn/wait are assumed.",
         "rule": "app: the runs with a child (half of all runs): recordings with 1..3 messages incl. header directly after header and missing trailers, all grammar-generated headers. Non-trivial = every run.",
         "exhaustive": False,
         "assumptions": ["OS: a pipe delivers the bytes written, in order; wait() returns after the child exits"],
